@@ -57,7 +57,7 @@ mod schema {
 /// Verification hooks: the prost-generated `bitswap.proto` messages and thin wrappers around the
 /// private CID prefix parser and block verifier. Adds code only.
 #[cfg(feature = "verif")]
-pub mod verif {
+pub mod verif_schema {
     pub use super::schema::bitswap::{
         wantlist::Entry as SchemaEntry, Block as SchemaBlock, BlockPresence as SchemaBlockPresence,
         Message as SchemaMessage, Wantlist as SchemaWantlist,
@@ -1204,6 +1204,7 @@ pub mod verif {
     use super::*;
 
     pub use super::config::{MAX_BATCH_SIZE, MAX_MESSAGE_SIZE};
+    pub use super::verif_schema::*;
 
     /// [`super::block_to_response`] on a received `Block { prefix, data }`.
     pub fn block_to_response(peer: &PeerId, prefix: Vec<u8>, data: Vec<u8>) -> Option<ResponseType> {
